@@ -522,9 +522,11 @@ func (e *Explorer) assert(c *Term, tag string) {
 	e.AssertQueries++
 	if e.check(mkNot(c), tag) {
 		e.PathsWithViolation++
-		// continue on the path where the assertion holds (if feasible)
+		// continue on the path where the assertion holds if there is one; an assertion that fails for
+		// every value on this path is recorded and execution goes on (later assertions of the same
+		// path — possibly another property's — are still evaluated)
 		if c.isFalse() || e.S.CheckWith(c) == "unsat" {
-			panic(pathAbort{"assert-always-fails"})
+			return
 		}
 		e.S.Assert(c)
 		e.learn(c)
